@@ -2,8 +2,9 @@ package main
 
 import (
 	"fmt"
-	"os"
 	"go/types"
+	"os"
+	"reflect"
 	"sort"
 	"strings"
 
@@ -1088,6 +1089,22 @@ func (w *World) decodeEffect(cal *ssa.Function, c *ssa.CallCommon, mi *ModInfo) 
 	ms := &ModSet{Fams: map[string]Sort{}, NonFresh: map[string]bool{}}
 	fams := map[string]Sort{}
 	seen := map[string]bool{}
+	if yamlUnmarshalerTypes == nil {
+		// types whose decoding yaml.v3 hands over to their own UnmarshalYAML (decoder.prepare calls the method for every
+		// addressable value and every pointer whose type implements yaml.Unmarshaler, and does not fill the fields
+		// by reflection then): library fact, listed in evidence
+		yamlUnmarshalerTypes = map[string]bool{}
+		for _, f := range w.AllFns {
+			if f.Name() == "UnmarshalYAML" && f.Signature.Recv() != nil && w.InModule(f) && f.Signature.Params().Len() == 1 &&
+				typeKey(f.Signature.Params().At(0).Type()) == "*gopkg.in/yaml.v3.Node" {
+				rt := types.Unalias(f.Signature.Recv().Type())
+				if p, isPtr := under(rt).(*types.Pointer); isPtr {
+					rt = types.Unalias(p.Elem())
+				}
+				yamlUnmarshalerTypes[typeKey(rt)] = true
+			}
+		}
+	}
 	if !reflectWriteFams(pt.Elem(), fams, seen, true) {
 		return nil
 	}
@@ -1114,6 +1131,8 @@ func (w *World) decodeEffect(cal *ssa.Function, c *ssa.CallCommon, mi *ModInfo) 
 	return ms
 }
 
+var yamlUnmarshalerTypes map[string]bool
+
 // reflectWriteFams collects the families of every cell in an object graph of static type t. false when the graph
 // can hold something the analysis cannot enumerate (a non-empty interface, a channel, a function).
 func reflectWriteFams(t types.Type, out map[string]Sort, seen map[string]bool, top bool) bool {
@@ -1137,8 +1156,17 @@ func reflectWriteFams(t types.Type, out map[string]Sort, seen map[string]bool, t
 		}
 		return reflectWriteFams(u.Elem(), out, seen, false)
 	case *types.Struct:
+		if yamlUnmarshalerTypes[k] {
+			// decoded by its own UnmarshalYAML, whose effect decodeEffect adds (the type is in `seen`)
+			return true
+		}
 		structStoreFams(t, out)
 		for i := 0; i < u.NumFields(); i++ {
+			if !u.Field(i).Exported() || reflect.StructTag(u.Tag(i)).Get("yaml") == "-" {
+				// reflection cannot set an unexported field and yaml.v3 skips a field tagged `yaml:"-"`; the cell
+				// families of the struct are still listed as written (structStoreFams is per struct, not per field)
+				continue
+			}
 			if !reflectWriteFams(u.Field(i).Type(), out, seen, false) {
 				return false
 			}
